@@ -134,7 +134,7 @@ def _enum_class_hooks(ctx: Ctx):
     im = _imgbase.image(ctx)
     t, mm, h = im.types, im.mm, im.hooks
     n = 0
-    for key, reg in h.class_hooks().items():
+    for key, reg in h.class_hooks_effective().items():
         if key[0] != "enum" or key[1] not in mm.enums or mm.enum_open(key[1]):
             continue
         n += 1
